@@ -53,6 +53,9 @@ func H_C06_struct() {
 		ps = append(ps, Pos{1, 1, 0})
 	}
 	o := Opts{Started: 2} // reward start time of each asset symbolic: the slash applies to warming-up assets too
+	// x/staking also slashes a validator that already left the active set (jailed for downtime, then
+	// double-sign evidence): the alliance stake on it is slashed all the same
+	o.Val0Unbonding = nd.Choice("unbonding", 2) == 1
 	if two == 1 {
 		o.NDenoms = 2
 		ps = append(ps, Pos{0, 0, 1})
